@@ -209,6 +209,10 @@ theorem whileF_next (cond : V → Option Bool) (body : V → Res V R) (f : Nat) 
     (hc : cond v = some true) (hb : body v = .next v') : whileF cond body (f + 1) v = whileF cond body f v' := by
   simp [whileF, hc, hb]
 
+theorem whileF_brk (cond : V → Option Bool) (body : V → Res V R) (f : Nat) (v v' : V)
+    (hc : cond v = some true) (hb : body v = .brk v') : whileF cond body (f + 1) v = .next v' := by
+  simp [whileF, hc, hb]
+
 theorem whileF_done (cond : V → Option Bool) (body : V → Res V R) (f : Nat) (v : V)
     (hc : cond v = some false) : whileF cond body (f + 1) v = .next v := by
   simp [whileF, hc]
